@@ -7,7 +7,7 @@
 pub extern crate parry2d_f64 as p2;
 pub extern crate parry3d_f64 as p3;
 mod util;
-mod c09;
+mod registry;
 
 use std::io::{BufRead, Write};
 use std::panic::{catch_unwind, AssertUnwindSafe};
@@ -16,10 +16,7 @@ use util::*;
 fn exec(prop: &str, func: &str, args: &str) -> String {
     let r = catch_unwind(AssertUnwindSafe(|| {
         let mut a = Args::new(args);
-        match prop {
-            "C09" => c09::exec(func, &mut a),
-            _ => "noprop".to_string(),
-        }
+        registry::exec(prop, func, &mut a)
     }));
     match r {
         Ok(s) => s,
@@ -33,9 +30,9 @@ fn exec(prop: &str, func: &str, args: &str) -> String {
 }
 
 fn gen(prop: &str, rng: &mut Rng, thorough: bool) -> Vec<(String, String)> {
-    match prop {
-        "C09" => c09::gen(rng, thorough),
-        p => { eprintln!("unknown property {}", p); std::process::exit(2); }
+    match registry::gen(prop, rng, thorough) {
+        Some(v) => v,
+        None => { eprintln!("unknown property {}", prop); std::process::exit(2); }
     }
 }
 
